@@ -33,11 +33,6 @@ structure DialectLe (d1 d2 : Dialect) : Prop where
   op : ∀ (o args : Val) (m : Nat) (ext : OperatorSet) (c : Ctr) (r : Nat × Val × Ctr),
     d1.op o args m ext c = some (.ok r) → d2.op o args m ext c = some (.ok r)
 
-theorem M_bind_eq {α β} {x : M α} {f : α → M β} {a : α} (h : x = .ok a) : (x >>= f) = f a := by
-  rw [h]; rfl
-
-theorem liftE_of_ok {α} {x : Except Err α} {a : α} (h : x = .ok a) : liftE x = .ok a := by rw [h]; rfl
-
 theorem evalOpAtom_kw {d1 d2 : Dialect} (hq : d1.quoteKw = d2.quoteKw) (hg : d1.gcCandidate = d2.gcCandidate)
     (s : MState) (o ol env : Val) : evalOpAtom d1 s o ol env = evalOpAtom d2 s o ol env := by
   unfold evalOpAtom; rw [hq, hg]
